@@ -187,11 +187,18 @@ Definition copy_addr (dst : store) (a : addr) : addr := (a + length (nodes dst))
 (* shallow copy: the object with its attributes and its immediate members; a member that is a
    group is copied with its attributes but without members *)
 Definition hollow (x : node) : node := mkNode (attrs x) [] (isdata x).
+Fixpoint index_of (c : addr) (l : list addr) (i : nat) : nat :=
+  match l with [] => i | x :: r => if Nat.eqb x c then i else index_of c r (S i) end.
+(* each object is copied once: a member that is the copied object itself (a section linked to
+   itself) becomes the copy itself, two links to one member share one copy *)
 Definition h5copy_shallow (s : store) (a : addr) : store * addr :=
   let n := length (nodes s) in
   let x := node_at s a in
+  let targets := map snd (links x) in
   let kids := map (fun p => hollow (node_at s (snd p))) (links x) in
-  let top := mkNode (attrs x) (combine (map fst (links x)) (seq (S n) (length (links x)))) (isdata x) in
+  let top := mkNode (attrs x)
+                    (map (fun p => (fst p, if Nat.eqb (snd p) a then n else (S n + index_of (snd p) targets 0)%nat)) (links x))
+                    (isdata x) in
   (mkStore (nodes s ++ top :: kids), n).
 
 (* keep_id=False: every object from address n0 on that carries an entity_id gets a fresh one
